@@ -623,6 +623,36 @@ func richTour(u *universe, w *hWorld) []func() *worldOp {
 		tweak(sysAs(u.SC, u.U[0], u.SYS, "ESDTPause", u.Fung[1]), withValue),
 		tx(u.U[3], u.K[0], "ChangeOwnerAddress", u.U[0]), // the same by the owner without a value: accepted (message towards shard 0)
 	)
+	// (s) messages that arrive with LESS gas than the function's own price (the destination side charges nothing, but computes with the
+	//     gas it was given): every transfer function, to a contract with an attached call and to a user, gas 0 / 1 / 5
+	for _, g := range []uint64{0, 1, 5} {
+		g := g
+		low := func(cs *callSpec) { cs.Gas = g }
+		l = append(l,
+			tweak(arrival(u.U[2], u.K[0], "ESDTTransfer", u.Fung[2], be(1), []byte("fn"), []byte("a")), low),
+			tweak(arrival(u.U[2], u.U[1], "ESDTTransfer", u.Fung[2], be(1)), low),
+			tweak(arrival(u.U[2], u.K[0], "ESDTNFTTransfer", u.NFTs[1], be(1), be(1), nftIn, []byte("fn")), low),
+			tweak(arrival(u.U[2], u.U[1], "ESDTNFTTransfer", u.NFTs[1], be(1), be(1), nftIn), low),
+			tweak(arrival(u.U[2], u.K[0], "MultiESDTNFTTransfer", be(2), u.NFTs[1], be(1), nftIn, u.Fung[2], []byte{0}, be(1), []byte("fn")), low),
+			tweak(arrival(u.U[2], u.U[1], "MultiESDTNFTTransfer", be(1), u.Fung[2], []byte{0}, be(1)), low),
+			tweak(tx(u.U[0], u.K[0], "ESDTTransfer", u.Fung[2], be(1), []byte("fn")), low), // sender side: refused for gas
+		)
+	}
+	//     the same through the protocol: origin calls towards the contract and a user of the other shard whose messages are delivered with
+	//     0 / 1 / 5 gas (what is left of a gas limit after the origin shard's own consumption), all three functions
+	for _, g := range []uint64{0, 1, 5} {
+		g := g
+		dl := func(f func() *worldOp) func() *worldOp {
+			return func() *worldOp { op := f(); op.DeliverGas = &g; return op }
+		}
+		l = append(l,
+			dl(tx(u.U[0], u.K[1], "ESDTTransfer", u.Fung[0], be(1), []byte("fn"), []byte("a"))),
+			dl(tx(u.U[0], u.U[2], "ESDTTransfer", u.Fung[0], be(1))),
+			dl(tx(u.U[0], u.U[0], "ESDTNFTTransfer", u.NFTs[1], be(1), be(1), u.K[1], []byte("fn"))),
+			dl(tx(u.U[0], u.U[0], "MultiESDTNFTTransfer", tkMulti(u.K[1], u.Fung[0], nil, be(1), u.NFTs[1], be(1), be(1), []byte("fn"))...)),
+			dl(tx(u.U[0], u.U[0], "MultiESDTNFTTransfer", tkMulti(u.U[2], u.Fung[0], nil, be(1))...)),
+		)
+	}
 	// a pause addressed to the non-canonical system-account address, a transfer of the token on that shard, the unpause
 	l = append(l,
 		sysAs(u.SC, u.U[0], u.SysVar, "ESDTPause", u.Fung[2]),
